@@ -510,6 +510,14 @@ def run(chk):
         if want - found:
             raise mir.AnchorMissing("Display impls of %s" % sorted(want - found))
         return True, "", ev
+    _FIXED = ("emit::span::TraceId", "emit::span::SpanId", "emit_traceparent::TraceFlags", "emit_traceparent::Traceparent", "emit_traceparent::Tracestate",
+              "emit_core::timestamp::Timestamp", "emit::level::Level", "emit::kind::Kind", "emit_core::path::Path<'a>", "emit_core::extent::Extent")
+    common.results_inspected_rule(
+        chk, P, "C15.R4:writers-propagate", "every write of a text form's Display impl hands its outcome on: a failed write ends the formatting with that error "
+        "instead of producing the rest of the text around a hole",
+        lambda b: (b.trait or "").startswith("core::fmt::") and (b.self_ty or "") in _FIXED and not b.is_closure or b.key.endswith("timestamp::fmt_rfc3339"),
+        {}, 8)
+
     chk.ob("C15.R4:flags-neutral", "fixed-layout text forms (ids, flags, traceparent, timestamp, level, kind) ignore the caller's width / precision flags", flags_neutral)
 
     chk.ob("C15.R4:traceparent-writer", "the traceparent formatter writes version, ids (or the parser's all-zero sentinels) and flags in the parser's order with the parser's separators", traceparent_writer)
@@ -1100,4 +1108,7 @@ def run(chk):
         from . import c17
         c17.level_parse_rule(chk, P, "C15.R6:level-parse")
 
+    from . import shapes
+    if any(b.crate == "emit_traceparent" for b in P.bodies.values()):
+        shapes.separators_each_checked(chk, P, "C15.R4:separators-each-checked")
     return chk
